@@ -48,7 +48,7 @@ impl rustc_driver::Callbacks for Cb {
         if is_test {
             return Compilation::Continue;
         }
-        let facts = rustc_middle::ty::print::with_no_trimmed_paths!(extract(tcx, &name));
+        let facts = rustc_middle::ty::print::with_no_visible_paths!(rustc_middle::ty::print::with_no_trimmed_paths!(extract(tcx, &name)));
         let mut s = String::with_capacity(8 << 20);
         facts.write(&mut s);
         let path = format!("{}/{}.json", self.out_dir, name);
